@@ -132,6 +132,16 @@ def set_leaf(c, k, rng, system):
         j = rng.randrange(3)
         kv[j]['v'] = rng.choice(['X1', 'nm', 'f', 't', 'base', 'ga', 'o', 'adn'])
         kv[j]['x'] = kv[j]['v'].startswith('X')
+        if rng.random() < 0.35:
+            # an independent layout of variables and constants over all three slots: the two sides then have their variables in
+            # different slots (neither is an instance of the other), or one side is an instance of a partly variable other side
+            for i in range(3):
+                r = rng.random()
+                if r < 0.4:
+                    kv[i]['v'] = 'X%d' % rng.randint(1, 3)
+                elif r < 0.5:
+                    kv[i]['v'] = rng.choice(['nm', 'f', 't', 'base', 'ga', 'nc'])
+                kv[i]['x'] = kv[i]['v'].startswith('X')
         if rng.random() < 0.2:
             # another attribute name in one slot (features with different attribute lists never match), often next to a variable
             i = rng.randrange(3)
